@@ -35,6 +35,7 @@ impl log::Log for Cap {
             return;
         }
         self.count.fetch_add(1, Ordering::Relaxed);
+        tee(record);
         // formatting the arguments is itself part of the workload (Debug impls can panic)
         let message = format!("{}", record.args());
         if self.keep.load(Ordering::Relaxed) {
@@ -48,6 +49,60 @@ impl log::Log for Cap {
     }
 
     fn flush(&self) {}
+}
+
+/// The endpoint's two real loggers, fed every record exactly as the `log` macros feed an installed logger (a call of
+/// `Log::log` for every record within `log::max_level()`, without asking `enabled()` first). What they write - the file
+/// logger to its file, the stdout logger to file descriptor 1, pointed at a capture file for the duration of the call -
+/// is what an operator would find in the log.
+pub struct Tee {
+    file_logger: &'static dyn log::Log,
+    stdout_logger: &'static dyn log::Log,
+    cap_fd: i32,
+    saved_fd: i32,
+    pub file_path: std::path::PathBuf,
+    pub stdout_path: std::path::PathBuf,
+}
+
+static TEE: std::sync::OnceLock<Tee> = std::sync::OnceLock::new();
+static TEE_ON: AtomicBool = AtomicBool::new(false);
+static TEE_LOCK: Mutex<()> = Mutex::new(());
+
+/// Create the real loggers (once per process) and start feeding them. Returns the tee, or None if it could not be set up.
+pub fn install_tee(dir: &std::path::Path) -> Option<&'static Tee> {
+    if TEE.get().is_none() {
+        use std::os::fd::IntoRawFd;
+        let file_path = dir.join("endpoint-file-logger.log");
+        let stdout_path = dir.join("endpoint-stdout-logger.log");
+        let file_logger: &'static dyn log::Log = trusttunnel::log_utils::make_file_logger(&file_path.to_string_lossy()).ok()?;
+        let stdout_logger: &'static dyn log::Log = trusttunnel::log_utils::make_stdout_logger();
+        let cap_fd = std::fs::OpenOptions::new().create(true).append(true).open(&stdout_path).ok()?.into_raw_fd();
+        let saved_fd = unsafe { libc::dup(1) };
+        if saved_fd < 0 { return None; }
+        let _ = TEE.set(Tee { file_logger, stdout_logger, cap_fd, saved_fd, file_path, stdout_path });
+    }
+    TEE_ON.store(true, Ordering::SeqCst);
+    TEE.get()
+}
+
+pub fn tee_off() { TEE_ON.store(false, Ordering::SeqCst); }
+
+/// flush what the real loggers have buffered
+pub fn tee_flush() {
+    if let Some(t) = TEE.get() { t.file_logger.flush(); }
+}
+
+fn tee(record: &log::Record) {
+    if !TEE_ON.load(Ordering::Relaxed) { return; }
+    let Some(t) = TEE.get() else { return };
+    t.file_logger.log(record);
+    use std::io::Write;
+    let _g = TEE_LOCK.lock().unwrap_or_else(|e| e.into_inner());
+    let _ = std::io::stdout().flush();
+    unsafe { libc::dup2(t.cap_fd, 1); }
+    t.stdout_logger.log(record);
+    let _ = std::io::stdout().flush();
+    unsafe { libc::dup2(t.saved_fd, 1); }
 }
 
 /// Install the capturing logger. `keep` = store records for later scanning.
